@@ -14,7 +14,7 @@ namespace TddaVerif.Props.C09
 open TddaVerif.Py TddaVerif.TddaFile
 
 /-- str() of a valid datetime is read back as that datetime — with or without fractional seconds, naive or with a
-    whole-minute UTC offset (as written for timezone-aware columns) -/
+    UTC offset of whole seconds (as written for timezone-aware columns: +HH:MM, or +HH:MM:SS for a local mean time) -/
 theorem getDate_strDatetime (t : Civil) (h : t.valid = true) : getDate (strDatetime t) = .ok t :=
   Lemmas.getDate_strDatetime t h
 
@@ -69,11 +69,13 @@ theorem stripLines_lines (s : Line) :
 /- non-vacuity -/
 example : getDate (strDatetime ⟨⟨1999, 12, 31, 23, 59, 59, 500000⟩, none⟩) = .ok ⟨⟨1999, 12, 31, 23, 59, 59, 500000⟩, none⟩ := by decide
 example : strDatetime ⟨⟨2020, 1, 2, 3, 4, 5, 0⟩, none⟩ = "2020-01-02 03:04:05".toList := by decide
-example : strDatetime ⟨⟨2020, 1, 2, 3, 4, 5, 0⟩, some (-210)⟩ = "2020-01-02 03:04:05-03:30".toList := by decide
-example : getDate "2020-01-02 03:04:05.250000-00:30".toList = .ok ⟨⟨2020, 1, 2, 3, 4, 5, 250000⟩, some (-30)⟩ := by decide
+example : strDatetime ⟨⟨2020, 1, 2, 3, 4, 5, 0⟩, some (-12600)⟩ = "2020-01-02 03:04:05-03:30".toList := by decide
+example : strDatetime ⟨⟨1900, 1, 1, 0, 0, 0, 633563⟩, some 19270⟩ = "1900-01-01 00:00:00.633563+05:21:10".toList := by decide
+example : getDate "1900-01-01 00:00:00.633563-03:30:52".toList = .ok ⟨⟨1900, 1, 1, 0, 0, 0, 633563⟩, some (-12652)⟩ := by decide
+example : getDate "2020-01-02 03:04:05.250000-00:30".toList = .ok ⟨⟨2020, 1, 2, 3, 4, 5, 250000⟩, some (-1800)⟩ := by decide
 example : getDate "2020-01-02 03:04:05+25:00".toList = .invalid := by decide
 example : getDate "2020-01-02+01:00".toList = .notDate := by decide
-example : (⟨⟨2020, 1, 2, 3, 4, 5, 0⟩, some (-210)⟩ : Civil).valid = true := by decide
+example : (⟨⟨2020, 1, 2, 3, 4, 5, 0⟩, some (-12600)⟩ : Civil).valid = true := by decide
 example : stripLines "a  \nb\t\n".toList = "a\nb\n".toList := by decide
 
 /-! ### creation metadata (Model/TddaMeta.lean; the keys and the two guards are regenerated from base.py) -/
